@@ -186,10 +186,33 @@ def failing_positions(c, o):
     return [p for p, a, e in zip(obs, o.get('answers', []), o.get('erased', [])) if a != e]
 
 
+def _untimed(entries):
+    """a listing with every reported time removed: what F17 leaves intact"""
+    out = []
+    for e in entries:
+        r = e.get('rel')
+        out.append({k: v for k, v in e.items() if k not in ('s', 'e', 'rel')}
+                   | {'rel': None if r is None else {k: v for k, v in r.items() if k not in ('multi',)}})
+    return out
+
+
+def only_times_differ(what, a, e):
+    """the answer `a` differs from the erased replay `e` only in reported times (listing, copy) / is a duration"""
+    if not isinstance(a, dict) or not isinstance(e, dict) or 'error' in a or 'error' in e:
+        return False
+    if what == 'duration':
+        return True
+    if what in ('listing', 'copy'):
+        return _untimed(a.get('ops', [])) == _untimed(e.get('ops', []))
+    return False            # acquisition indices, the Stim program and "plot succeeds" do not involve times
+
+
 def known_class(c, o):
     """F17: listing hands the sub-circuit's relation link to its first operations (their times become absolute); an operation
     added to that nested sub-circuit afterwards stays in the relative frame, so extent/duration and downstream times mix two
-    frames.  Only failures AFTER such a growth, in a history that listed before it, are excused."""
+    frames.  Excused: failures AFTER such a growth, in a history that listed before it, in which every failing answer differs
+    from its erased replay in reported TIMES only (same operations, same order, same relations; or a duration).  A lost or
+    reordered operation, different acquisition indices or a different exported program after the same growth is NOT this finding."""
     if 'error' in o:
         return None
     fails = failing_positions(c, o)
@@ -198,9 +221,13 @@ def known_class(c, o):
     grows = positions(c, lambda x: x[0] == 'grow')
     lists = positions(c, lambda x: x[0] == 'obs' and x[1] in LISTING_OBS)
     ok = [g for g in grows if any(l < g for l in lists)]
-    if ok and min(fails) > min(ok):
-        return F17_CLASS
-    return None
+    if not (ok and min(fails) > min(ok)):
+        return None
+    obs = positions(c, lambda x: x[0] == 'obs')
+    for p, a, e in zip(obs, o.get('answers', []), o.get('erased', [])):
+        if a != e and not only_times_differ(c['cmds'][p][1], a, e):
+            return None
+    return F17_CLASS
 
 
 def nontrivial(c, o):
